@@ -10,6 +10,8 @@ import (
 	"go/types"
 	"strconv"
 	"strings"
+
+	"github.com/cespare/xxhash/v2"
 )
 
 type native func(fr *frame, args []value) (value, bool)
@@ -118,6 +120,23 @@ func init() {
 		"fmt.Print":             func(fr *frame, a []value) (value, bool) { return tuple{0, iface{}}, true },
 		"time.Now":              func(fr *frame, a []value) (value, bool) { return zero(fr.fn.Signature.Results().At(0).Type()), true },
 		"time.Sleep":            func(fr *frame, a []value) (value, bool) { fr.i.run.scheduler().yield("sleep"); return nil, true },
+		"github.com/cespare/xxhash/v2.Sum64String": func(fr *frame, a []value) (value, bool) {
+			return xxhash.Sum64String(fr.i.run.concString(a[0], "xxhash")), true
+		},
+		"github.com/cespare/xxhash/v2.Sum64": func(fr *frame, a []value) (value, bool) {
+			return xxhash.Sum64String(fr.i.run.concString(mkString(a[0].([]value)), "xxhash")), true
+		},
+		// shard selection of please's concurrent map: any function of the key is a valid
+		// hash; a constant keeps symbolic keys symbolic (no concretisation) and all keys
+		// in one shard, where the shard's Go map compares them exactly.
+		"github.com/thought-machine/please/src/cmap.XXHash": func(fr *frame, a []value) (value, bool) {
+			fr.i.run.stubs["cmap.XXHash (constant shard)"]++
+			return uint64(0), true
+		},
+		"github.com/thought-machine/please/src/cmap.XXHashes": func(fr *frame, a []value) (value, bool) {
+			fr.i.run.stubs["cmap.XXHashes (constant shard)"]++
+			return uint64(0), true
+		},
 		"reflect.DeepEqual":     func(fr *frame, a []value) (value, bool) { return mkBool(fr.i.run.deepEqual(a[0], a[1], 0)), true },
 		"strconv.Itoa": func(fr *frame, a []value) (value, bool) {
 			return strconv.Itoa(int(fr.i.run.concInt(a[0], "Itoa"))), true
